@@ -81,6 +81,23 @@ def case_history(cid, rnd, stdlib):
         h["versions"] = h["versions"] + [(cf, "import pytest\nfrom .%s import *\n" % a), (cf, "import pytest\nfrom .%s import *\n" % b)]
         forced = {n0, n0 + 1}
         tags.append("edit:retarget-directed")
+    if cid % 4 == 2:
+        # an ABSOLUTE import that first resolves to a module in an ancestor directory; later a
+        # same-named module appears NEARER to the importing conftest (absolute imports resolve
+        # nearest directory first): whatever the earlier queries memoised, the answers must be
+        # those of a cold twin
+        base = "/vk%d" % (cid % 5)
+        fx = "import pytest\n\n@pytest.fixture\ndef %s():\n    return 1\n"
+        n0 = len(h["versions"])
+        h["versions"] = h["versions"] + [
+            (base + "/shadow_mod.py", fx % "sh_far"),
+            (base + "/shw/conftest.py", rnd.choice(["from shadow_mod import *\n", "import pytest\npytest_plugins = [\"shadow_mod\"]\n",
+                                                    "from shadow_mod import *\nimport pytest\n"])),
+            (base + "/shw/test_s.py", "def test_s(sh_far, sh_near):\n    pass\n"),
+            (base + "/shw/shadow_mod.py", fx % "sh_near")]
+        h["names"] = h["names"] + ["sh_far", "sh_near"]
+        forced = forced | {n0 + 2, n0 + 3}
+        tags.append("shadowing-module-appears")
     for i, (p, text) in enumerate(h["versions"]):
         op = {"op": "analyze", "path": p, "text": text}
         steps.append(op)
